@@ -1,7 +1,7 @@
 (* Proofs about input selection (TxCli.select_input) and session configuration (Configure.configure). *)
 From Coq Require Import ZifyBool.
 From BV Require Import Base BaseProofs ScriptNum Script Interp Session Tx TxCli Sighash Configure.
-From BV.Gen Require Import Consts.
+From BV.Gen Require Import Consts Sites.
 Local Open Scope Z_scope.
 
 (* ------------------------------------------------------------------ input selection *)
@@ -281,6 +281,10 @@ Lemma configure_v1_spec : forall program w amount s, configure_v1 sha256 program
                 ed_weight_init (ss_ed s) = true /\ ed_weight_left (ss_ed s) = witness_size w + VALIDATION_WEIGHT_OFFSET)).
 Proof.
   intros program w amount s H. unfold configure_v1 in H. unfold strip_annex.
+  (* the generated comparisons of the control block size test are "< base" and "> max" *)
+  assert (Hmin: forall n, cmp_eval site_control_min n TAPROOT_CONTROL_BASE_SIZE = (n <? TAPROOT_CONTROL_BASE_SIZE)) by reflexivity.
+  assert (Hmax: forall n, cmp_eval site_control_max n TAPROOT_CONTROL_MAX_SIZE = (TAPROOT_CONTROL_MAX_SIZE <? n)) by reflexivity.
+  rewrite ?Hmin, ?Hmax in H.
   destruct (zlen program =? WITNESS_V1_TAPROOT_SIZE) eqn:E0; [|discriminate]. cbn [negb] in H. apply Z.eqb_eq in E0.
   set (stack := if has_annex w then removelast w else w) in *.
   assert (Hst: (if has_annex w then (removelast w, Some (last w [])) else (w, None)) = (stack, if has_annex w then Some (last w []) else None))
